@@ -18,6 +18,15 @@ CHECKS = {
             "pairs. Totality and the size guard are checked on each value; a subset is pushed through dds.keep.",
             "canonical form of DESIGN 4.4 defines 'differ'; digest-shaped strings are outside the alphabet",
             "5/C05"),
+    "C12": ("seqmc", "model_checking",
+            "explicit-state BFS to closure over store operation sequences, wrapped vs bare store in lock step",
+            "Breadth-first search over 19 store operations on six keys (present, absent, stored later, None-valued) and two "
+            "paths: the cache-wrapped store and the bare store, both built through dds.set_store, execute every transition in lock "
+            "step and every answer is compared. With the memory store underneath the reachable state space is exhausted for every "
+            "capacity; with the local store underneath it is explored to a stated depth and the number of fetched objects still "
+            "alive (weak references) is compared with the bound after every transition. cache_objects decoding is enumerated.",
+            "state = canonical object graph of both stores (+ directory tree); the bare store is the reference model",
+            "5/C12"),
 }
 
 NOT_YET = {}
